@@ -261,6 +261,16 @@ func (d *Decls) tagOf(t types.Type) int {
 	return n
 }
 
+func (d *Decls) tagOfName(k string) int {
+	if n, ok := d.tags[k]; ok {
+		return n
+	}
+	n := len(d.tags) + 1
+	d.tags[k] = n
+	d.tagOrder = append(d.tagOrder, k)
+	return n
+}
+
 // box/unbox function names for a concrete type
 func (d *Decls) boxFns(t types.Type) (box, unbox string) {
 	k := d.typeKey(t)
